@@ -12,9 +12,15 @@
   `u8`-digit copy for radix 256, `to_bitwise_digits_le` (`log2 r ∣ w`), `to_inexact_bitwise_digits_le`
   (radices 8, 32, 64, 128), `to_radix_digits_le` (every other radix, by `div_rem_digit`).
   `Spec.Radix.canonLE r v` = digits of `v` by repeated division (`[0]` for zero), `canonBE` its
-  reverse, `canonStr r z` = optional `-` then the lowercase ASCII image of `canonBE r |z|`.
+  reverse, `canonStr r z` = optional `-` then the lowercase ASCII image of `canonBE r |z|`
+  (`canonStr_props`: these definitions have the properties the statement lists).
+
+  Signed entry points (`BInt::to_radix_le/_be`, round trips, panics) have their own statements
+  (`i_*`), and "parsing the output" is proved for EVERY parsing entry point of the crate:
+  `from_str_radix`, `parse_str_radix`, `parse_bytes`, `FromStr` (radix 10), `from_radix_be`,
+  `from_radix_le` (also with the digit order crossed).
 -/
-import Bnum.Lemmas.Radix
+import Bnum.Lemmas.C11Extra
 namespace Bnum.C11
 open Bnum Bnum.Radix Bnum.Spec.Radix
 
@@ -127,6 +133,129 @@ theorem roundtrip_le {w n r sh : Nat} {x : List Nat} (hn : 1 ≤ n) (hwb : w = 8
 example : (UI.toRadixLe 8 [0x39, 0x30] 256).bind (fun ds => UI.fromRadixLe 8 2 ds 256)
     = .ok (some [0x39, 0x30]) := by decide
 
+/-! ### the canonical string has the properties the statement lists -/
+
+/-- "lowercase digits, no leading zeros, '0' for zero and a leading '-' for negative values", and the
+    numeral denotes the value (so `canonStr` is the only string with these properties) -/
+theorem canonStr_props {r : Nat} (hr : 2 ≤ r) (hr36 : r ≤ 36) (z : Int) :
+    canonStr r 0 = [48] ∧
+    (z < 0 → canonStr r z = 45 :: canonStr r (-z)) ∧
+    (0 ≤ z → (canonStr r z).head? ≠ some 45) ∧
+    (0 < z → (canonStr r z).head? ≠ some 48) ∧
+    (∀ b ∈ canonStr r z, b = 45 ∨ (48 ≤ b ∧ b ≤ 57) ∨ (97 ≤ b ∧ b ≤ 122)) ∧
+    (∃ g, Grammar r true (canonStr r z) = some g ∧ denote r g = z) :=
+  Bnum.canonStr_props hr hr36 z
+example : canonStr 16 (-255) = [0x2d, 0x66, 0x66] ∧ canonStr 36 35 = [0x7a] ∧ canonStr 2 0 = [0x30] := by decide
+
+/-! ### signed types (`BInt::to_radix_le`, `to_radix_be`): the digits of the two's-complement pattern -/
+
+theorem i_toRadixLe_spec {w n r : Nat} {x : List Nat} (hn : 1 ≤ n) (hw8 : 8 ≤ w) (hx : WF w n x)
+    (hr : 2 ≤ r) (hr256 : r ≤ 256) : II.toRadixLe w x r = .ok (canonLE r (U w x)) :=
+  toRadixLe_spec hn hw8 hx hr hr256
+theorem i_toRadixBe_spec {w n r : Nat} {x : List Nat} (hn : 1 ≤ n) (hw8 : 8 ≤ w) (hx : WF w n x)
+    (hr : 2 ≤ r) (hr256 : r ≤ 256) : II.toRadixBe w x r = .ok (canonBE r (U w x)) :=
+  toRadixBe_spec hn hw8 hx hr hr256
+/-- -1 as `BIntD8<2>`: the digits of 65535 -/
+example : S 8 [0xff, 0xff] = -1 ∧ II.toRadixBe 8 [0xff, 0xff] 10 = .ok [6, 5, 5, 3, 5] ∧
+    II.toRadixLe 8 [0xff, 0xff] 16 = .ok [15, 15, 15, 15] := by decide
+
+theorem i_roundtrip_be {w n r sh : Nat} {x : List Nat} (hn : 1 ≤ n) (hwb : w = 8 * 2 ^ sh)
+    (hx : WF w n x) (hr : 2 ≤ r) (hr256 : r ≤ 256) :
+    (II.toRadixBe w x r).bind (fun ds => II.fromRadixBe w n ds r) = .ok (some x) :=
+  roundtrip_be hn hwb hx hr hr256
+example : (II.toRadixBe 8 [0x00, 0x80] 200).bind (fun ds => II.fromRadixBe 8 2 ds 200)
+    = .ok (some [0x00, 0x80]) := by decide
+
+theorem i_roundtrip_le {w n r sh : Nat} {x : List Nat} (hn : 1 ≤ n) (hwb : w = 8 * 2 ^ sh)
+    (hx : WF w n x) (hr : 2 ≤ r) (hr256 : r ≤ 256) :
+    (II.toRadixLe w x r).bind (fun ds => II.fromRadixLe w n ds r) = .ok (some x) :=
+  roundtrip_le hn hwb hx hr hr256
+example : (II.toRadixLe 8 [0xff, 0xff] 8).bind (fun ds => II.fromRadixLe 8 2 ds 8)
+    = .ok (some [0xff, 0xff]) := by decide
+
+/-- the digits printed in one order, reversed, are read back by the entry point of the other order -/
+theorem roundtrip_be_le {w n r sh : Nat} {x : List Nat} (hn : 1 ≤ n) (hwb : w = 8 * 2 ^ sh)
+    (hx : WF w n x) (hr : 2 ≤ r) (hr256 : r ≤ 256) :
+    (UI.toRadixBe w x r).bind (fun ds => UI.fromRadixLe w n ds.reverse r) = .ok (some x) ∧
+    (UI.toRadixLe w x r).bind (fun ds => UI.fromRadixBe w n ds.reverse r) = .ok (some x) := by
+  have hw : 8 ≤ w := by have := Nat.pow_pos (n := sh) (show 0 < 2 by omega); omega
+  have hle := roundtrip_le hn hwb hx hr hr256
+  have hbe := roundtrip_be hn hwb hx hr hr256
+  have hs := UI.toRadixLe_spec hn hw hx hr hr256
+  have hb := UI.toRadixBe_spec hn hw hx hr hr256
+  rw [Outcome.bind_ok_eq _ hs] at hle
+  rw [Outcome.bind_ok_eq _ hb] at hbe
+  rw [Outcome.bind_ok_eq _ hs, Outcome.bind_ok_eq _ hb]
+  constructor
+  · unfold canonBE; rw [List.reverse_reverse]; exact hle
+  · exact hbe
+example : (UI.toRadixBe 8 [0x39, 0x30] 10).bind (fun ds => UI.fromRadixLe 8 2 ds.reverse 10)
+    = .ok (some [0x39, 0x30]) := by decide
+
+/-! ### round trips through the other string-parsing entry points:
+    `parse_bytes`, `parse_str_radix`, `FromStr` -/
+
+theorem u_roundtrip_parse_bytes {w n r : Nat} {x : List Nat} (hn : 1 ≤ n) (hw8 : 8 ≤ w) (hw4 : 4 ∣ w)
+    (hx : WF w n x) (hr : 2 ≤ r) (hr36 : r ≤ 36) :
+    (UI.toStrRadix w x r).bind (fun s => UI.parseBytes w n s r) = .ok (some x) := by
+  have h := u_roundtrip_str hn hw8 hw4 hx hr hr36
+  have hs := UI.toStrRadix_spec hn hw8 hx hr hr36
+  rw [Outcome.bind_ok_eq _ hs] at h
+  rw [Outcome.bind_ok_eq _ hs]
+  refine UI.parseBytes_of_ok ?_ h
+  rw [← canonStr_ofNat]; exact canonStr_utf8Valid hr hr36 _
+example : (UI.toStrRadix 8 [0xff, 0xff] 36).bind (fun s => UI.parseBytes 8 2 s 36) = .ok (some [0xff, 0xff]) := by
+  decide
+
+theorem i_roundtrip_parse_bytes {s n r : Nat} {x : List Nat} (hn : 1 ≤ n) (hs3 : 3 ≤ s) (hs : s < 32)
+    (hx : WF (2 ^ s) n x) (hr : 2 ≤ r) (hr36 : r ≤ 36) :
+    (II.toStrRadix (2 ^ s) x r).bind (fun str => II.parseBytes (2 ^ s) n str r) = .ok (some x) := by
+  obtain ⟨hw8, _⟩ := pow_s_facts hs3
+  have h := i_roundtrip_str hn hs3 hs hx hr hr36
+  have hp := II.toStrRadix_spec hn hw8 hx hr hr36
+  rw [Outcome.bind_ok_eq _ hp] at h
+  rw [Outcome.bind_ok_eq _ hp]
+  exact II.parseBytes_of_ok (canonStr_utf8Valid hr hr36 _) h
+example : (II.toStrRadix (2 ^ 3) [0x00, 0x80] 7).bind (fun s => II.parseBytes (2 ^ 3) 2 s 7)
+    = .ok (some [0x00, 0x80]) := by decide
+
+theorem u_roundtrip_parse_str {w n r : Nat} {x : List Nat} (hn : 1 ≤ n) (hw8 : 8 ≤ w) (hw4 : 4 ∣ w)
+    (hx : WF w n x) (hr : 2 ≤ r) (hr36 : r ≤ 36) :
+    (UI.toStrRadix w x r).bind (fun s => UI.parseStrRadix w n s r) = .ok x := by
+  have h := u_roundtrip_str hn hw8 hw4 hx hr hr36
+  have hs := UI.toStrRadix_spec hn hw8 hx hr hr36
+  rw [Outcome.bind_ok_eq _ hs] at h
+  rw [Outcome.bind_ok_eq _ hs]
+  exact UI.parseStrRadix_of_ok h
+example : (UI.toStrRadix 8 [0xff, 0xff] 3).bind (fun s => UI.parseStrRadix 8 2 s 3) = .ok [0xff, 0xff] := by
+  decide
+
+theorem i_roundtrip_parse_str {s n r : Nat} {x : List Nat} (hn : 1 ≤ n) (hs3 : 3 ≤ s) (hs : s < 32)
+    (hx : WF (2 ^ s) n x) (hr : 2 ≤ r) (hr36 : r ≤ 36) :
+    (II.toStrRadix (2 ^ s) x r).bind (fun str => II.parseStrRadix (2 ^ s) n str r) = .ok x := by
+  obtain ⟨hw8, _⟩ := pow_s_facts hs3
+  have h := i_roundtrip_str hn hs3 hs hx hr hr36
+  have hp := II.toStrRadix_spec hn hw8 hx hr hr36
+  rw [Outcome.bind_ok_eq _ hp] at h
+  rw [Outcome.bind_ok_eq _ hp]
+  exact II.parseStrRadix_of_ok h
+example : (II.toStrRadix (2 ^ 3) [0xff, 0xff] 2).bind (fun s => II.parseStrRadix (2 ^ 3) 2 s 2)
+    = .ok [0xff, 0xff] := by decide
+
+/-- `x.to_str_radix(10).parse::<T>() == Ok(x)` -/
+theorem u_roundtrip_from_str {w n : Nat} {x : List Nat} (hn : 1 ≤ n) (hw8 : 8 ≤ w) (hw4 : 4 ∣ w)
+    (hx : WF w n x) : (UI.toStrRadix w x 10).bind (fun s => UI.fromStr w n s) = .ok (.ok x) :=
+  u_roundtrip_str hn hw8 hw4 hx (by omega) (by omega)
+example : (UI.toStrRadix 8 [0x39, 0x30] 10).bind (fun s => UI.fromStr 8 2 s) = .ok (.ok [0x39, 0x30]) := by
+  decide
+
+theorem i_roundtrip_from_str {s n : Nat} {x : List Nat} (hn : 1 ≤ n) (hs3 : 3 ≤ s) (hs : s < 32)
+    (hx : WF (2 ^ s) n x) :
+    (II.toStrRadix (2 ^ s) x 10).bind (fun str => II.fromStr (2 ^ s) n str) = .ok (.ok x) :=
+  i_roundtrip_str hn hs3 hs hx (by omega) (by omega)
+example : (II.toStrRadix (2 ^ 3) [0x00, 0x80] 10).bind (fun s => II.fromStr (2 ^ 3) 2 s)
+    = .ok (.ok [0x00, 0x80]) := by decide
+
 /-! ### panics: exactly for an out-of-range radix -/
 
 theorem toRadixLe_panic_iff {w n : Nat} {x : List Nat} (hn : 1 ≤ n) (hw8 : 8 ≤ w) (hx : WF w n x)
@@ -166,5 +295,29 @@ theorem i_toStrRadix_panic_iff {w n : Nat} {x : List Nat} (hn : 1 ≤ n) (hw8 : 
     split
     · rw [hp']; rfl
     · exact hp
+
+theorem i_toRadixLe_panic_iff {w n : Nat} {x : List Nat} (hn : 1 ≤ n) (hw8 : 8 ≤ w) (hx : WF w n x)
+    (r : Nat) : II.toRadixLe w x r = .panic ↔ ¬ (2 ≤ r ∧ r ≤ 256) := toRadixLe_panic_iff hn hw8 hx r
+theorem i_toRadixBe_panic_iff {w n : Nat} {x : List Nat} (hn : 1 ≤ n) (hw8 : 8 ≤ w) (hx : WF w n x)
+    (r : Nat) : II.toRadixBe w x r = .panic ↔ ¬ (2 ≤ r ∧ r ≤ 256) := toRadixBe_panic_iff hn hw8 hx r
+/-- also for zero and for negative values, and for radices that a cast to the digit type would make valid -/
+example : II.toRadixLe 8 [0, 0] 257 = .panic ∧ UI.toRadixBe 8 [0, 0] 0 = .panic ∧
+    II.toStrRadix 8 [0xff, 0xff] 37 = .panic ∧ UI.toStrRadix 8 [0, 0] 1 = .panic ∧
+    UI.toRadixLe 8 [5, 0] 266 = .panic ∧ UI.toRadixLe 16 [5, 0] 65546 = .panic := by decide
+
+/-- a composed print-then-parse request panics for an out-of-range radix (its printing half does),
+    whatever the parser is -/
+theorem composed_panic_of_bad_radix {β : Type} {w n : Nat} {x : List Nat} (hn : 1 ≤ n) (hw8 : 8 ≤ w)
+    (hx : WF w n x) (r : Nat) (f : List Nat → Outcome β) :
+    (¬ (2 ≤ r ∧ r ≤ 256) → (UI.toRadixLe w x r).bind f = .panic ∧ (UI.toRadixBe w x r).bind f = .panic) ∧
+    (¬ (2 ≤ r ∧ r ≤ 36) → (UI.toStrRadix w x r).bind f = .panic ∧ (II.toStrRadix w x r).bind f = .panic) := by
+  constructor
+  · intro h
+    rw [(toRadixLe_panic_iff hn hw8 hx r).mpr h, (toRadixBe_panic_iff hn hw8 hx r).mpr h]
+    exact ⟨rfl, rfl⟩
+  · intro h
+    rw [(u_toStrRadix_panic_iff hn hw8 hx r).mpr h, (i_toStrRadix_panic_iff hn hw8 hx r).mpr h]
+    exact ⟨rfl, rfl⟩
+example : (UI.toRadixLe 8 [0, 0] 300).bind (fun ds => UI.fromRadixLe 8 2 ds 300) = .panic := by decide
 
 end Bnum.C11
